@@ -117,6 +117,12 @@ def m_string_default(P, t):
     return _model(P, S(P, name="Holder", type="object", properties={"v": S(P, type="string", default=t)}, required=[]))
 
 
+def m_enum_default(P, t):
+    prio = S(P, name="Prio", type="string", enum=["low", t], default=t)
+    holder = S(P, name="Holder", type="object", properties={"p": prio}, required=[])
+    return _model(P, holder, extra=[prio])
+
+
 def m_enum_value(P, t):
     return _model(P, S(P, name="Color", type="string", enum=["red", t]))
 
@@ -301,6 +307,7 @@ SITES = {
     "model.field_description_optional": (m_field_desc_optional, False, 0, _MODEL_FUNCS + [B + "core.writers.python_construct_renderer:PythonConstructRenderer.render_dataclass"]),
     "model.property_name": (m_property_name, True, 1, _MODEL_FUNCS + [B + "visit.model.dataclass_generator:DataclassGenerator.generate", B + "core.writers.python_construct_renderer:PythonConstructRenderer.render_dataclass"]),
     "model.string_default": (m_string_default, True, 1, _MODEL_FUNCS + [B + "visit.model.dataclass_generator:DataclassGenerator._get_field_default"]),
+    "model.enum_default": (m_enum_default, True, 1, _MODEL_FUNCS + [B + "visit.model.dataclass_generator:DataclassGenerator._get_field_default"]),
     "model.enum_value": (m_enum_value, True, 1, _MODEL_FUNCS + [B + "visit.model.enum_generator:EnumGenerator.generate", B + "core.writers.python_construct_renderer:PythonConstructRenderer.render_enum"]),
     "model.enum_description": (m_enum_desc, False, 0, _MODEL_FUNCS + [B + "core.writers.python_construct_renderer:PythonConstructRenderer.render_enum"]),
     "model.alias_description": (m_alias_desc, False, 0, _MODEL_FUNCS + [B + "core.writers.python_construct_renderer:PythonConstructRenderer.render_alias"]),
@@ -354,7 +361,8 @@ class Benign:
                     # (a value site must show the marker in at least one fragment; checked by the caller)
                 recs.append((L.skeleton, pos, pylex.cpython_view(f)))
             if value_site and not any(r[1] for r in recs):
-                raise RuntimeError("value site %s: marker literal not found in the benign rendering" % site)
+                # the site writes the text as something other than a string literal (i.e. as code): every input violates
+                recs = "text is not rendered as a string literal at this site (benign text %r appears as code)" % m
             cls._cache[key] = recs
         return cls._cache[key]
 
@@ -364,6 +372,8 @@ def judge(site, n, text, frags):
     if isinstance(frags, Raised) or frags is None:
         return False, "rendering raised/declined: %r" % (frags,)
     ben = Benign.get(site, n)
+    if isinstance(ben, str):
+        return False, ben
     if len(frags) != len(ben):
         return False, "fragment count differs"
     conj = []
@@ -390,7 +400,7 @@ def judge(site, n, text, frags):
 def cpython_judge(site, n, text, frags):
     """The same verdict computed by CPython itself (ast.parse, AST shape, evaluated constants): validation oracle."""
     ben = Benign.get(site, n)
-    if len(frags) != len(ben):
+    if isinstance(ben, str) or len(frags) != len(ben):
         return False
     m = marker(n)
     for f, (_, pos, (bok, bshape, bconsts)) in zip(frags, ben):
@@ -476,7 +486,7 @@ def _validate_job(args):
 
 def specs(tier):
     nmax = 2 if tier == "quick" else 3
-    deep = {"model.enum_value", "model.property_name", "endpoint.summary", "model.field_description_required"}
+    deep = {"model.enum_value", "model.property_name", "endpoint.summary", "model.field_description_required", "client.description"}
     out = []
     for site, (_, _, minlen, _) in SITES.items():
         top = nmax + (1 if (tier == "thorough" and site in deep) else 0)
